@@ -553,3 +553,13 @@ m("benign-completeness-two-negatives", "C11", "nomt/src/overlay.rs",
   "            .map_or(false, |status| !status.is_committed())",
   "            .map_or(false, |status| {\n                let v = status.0.load(Ordering::Relaxed);\n                v == OverlayStatus::LIVE || v == OverlayStatus::DROPPED\n            })",
   None)
+
+# ---- C14 R7 bounded bucket allocation ----
+m("c14-probe-bound-removed", "C14", "nomt/src/bitbox/mod.rs",
+  "            if self.step > 2 * meta_map.len() as u64 {\n                return ProbeResult::Exhausted;\n            }\n",
+  "",
+  "R7|bitbox::ProbeSequence::next|loop#1|unbounded")
+m("c14-allocate-gives-up-never", "C14", "nomt/src/bitbox/mod.rs",
+  "        i += 1;\n        if i >= 10000 {\n            // Give up.\n            return None;\n        }",
+  "        i += 1;\n        if i >= 10000 {\n            // Keep trying: the table may free up.\n            i = 0;\n        }",
+  "R7|bitbox::allocate_bucket|loop#1|unbounded")
